@@ -180,13 +180,15 @@ fn sequences(alphabet: &[&'static str], max: usize, files_only: bool) -> Vec<Vec
 const DEEP_NAMES: &[&str] = &[
     "x", "y", ".", "..", "src", "generated", "a.b", "schema.graphql", "...", "caf\u{e9}", "__generated__",
     "d.ts", "x y", ".hidden", "..cache", ".generated", ".x.graphql",
+    // names that differ from others of the pool only in letter case (distinct directories on Linux)
+    "X", "Y", "Src", "GENERATED",
 ];
 
 pub fn run(env: &Env) -> i32 {
     let mut rep = Report::new(
         env,
         "exploration",
-        "pairs (A,B) of absolute file paths over {x,y,.,..} that never climb above the root, exhaustive to depth 5 in both tiers (all file-path pairs), normalisation alone exhaustive to depth 7, plus random pairs to depth 12 over a 14-name pool; oracle: reference stack normalisation + reference interpretation of the relative path + repo resolve as inverse. Non-trivial: common prefix shorter than both directories and '..' in the relative path; distinct = (A,B).",
+        "pairs (A,B) of absolute file paths over {x,y,.,..} that never climb above the root, exhaustive to depth 5 in both tiers (all file-path pairs), normalisation alone exhaustive to depth 7, plus random pairs to depth 12 over a 21-name pool (dots, spaces, non-ASCII, names differing only in letter case); oracle: reference stack normalisation + reference interpretation of the relative path + repo resolve as inverse. Non-trivial: common prefix shorter than both directories and '..' in the relative path; distinct = (A,B).",
     );
     rep.assume("A and B denote files: their last component is a name, not '.' or '..' (callers pass file paths); paths that would climb above the root are outside the statement and are counted, not tested");
     rep.assume("A and B can coexist as files: neither normalised path is a proper ancestor directory of the other (such pairs are counted under the label out-of-domain:ancestor-pair and not asserted)");
